@@ -1,6 +1,6 @@
 (* Correspondence for C19: (live ids ascending, cursor, n, implementation's answer) *)
 From Coq Require Import List NArith ZArith Bool.
-From Alp Require Import Base.Str Base.Types Model.Walker.
+From Alp Require Import Base.Str Base.Types Model.Walker Model.Gate.
 Import ListNotations.
 Definition case := (list N * N * nat * option (list N * N))%type.
 Definition res_eqb (a b : option (list N * N)) : bool :=
@@ -14,3 +14,9 @@ Definition check (c : case) : bool :=
 (* age filter: (now, last_update, min_days, skipped?) all in seconds/days as integers *)
 Definition acase := (Z * Z * Z * bool)%type.
 Definition acheck (c : acase) : bool := let '(now, upd, d, skipped) := c in Bool.eqb (too_new now upd d) skipped.
+
+(* the gate: (idle at the start of the pass, update not cancelled, idle after the update, auto_verify, did a batch happen?) *)
+Definition gcase := (bool * bool * bool * Z * bool)%type.
+Definition gcheck (c : gcase) : bool :=
+  let '(i0, du, i1, av, ran) := c in
+  Bool.eqb ran (verifies {| p_idle_at_start := i0; p_do_update := du; p_idle_after := i1; p_auto_verify := av; p_table := [] |}).
